@@ -72,7 +72,8 @@ def _source(rng):
     roll = rng.random()
     if roll < 0.55:
         item = gen_mol.build_item(rng, kind="atomistic", size=rng.randint(2, 22), weights=rng.random() < 0.7,
-                                  mid_levels=rng.choice([0, 0, 1, 2]))
+                                  mid_levels=rng.choice([0, 0, 1, 2]),
+                                  explicit_h=rng.random() < 0.3)
         return {"string": item["multi"], "family": "decomp", "shared_atoms": False, "item": item}
     if roll < 0.75:
         return _repeat_source(rng)
